@@ -111,6 +111,8 @@ package op
 
 //@ func op.CreateAccessToken
 //@   requires valid(tokenRequest) && valid(creator)
+//@   ensures exchange-refresh: err == nil && implements(tokenRequest, "TokenExchangeRequest") && !implements(tokenRequest, "AuthRequest")
+//@        && as(tokenRequest, "TokenExchangeRequest").GetRequestedTokenType() == oidc.RefreshTokenType ==> newRefreshToken != ""
 //@   ensures rotation: err == nil && implements(tokenRequest, "RefreshTokenRequest")
 //@        && !implements(tokenRequest, "AuthRequest") && !implements(tokenRequest, "TokenExchangeRequest")
 //@        ==> rotated(refreshToken, newRefreshToken)
@@ -536,6 +538,8 @@ package op
 //@   modifies Resp_written[w], Resp_status[w], Resp_location[w], Resp_body[w]
 //@   unframed
 //@   ensures responded: Resp_written[w]
+//@   ensures success-only-validated: Resp_status[w] == 200 ==> callres("op.ValidateTokenExchangeRequest", 2) == nil && callres("op.CreateTokenExchangeResponse", 1) == nil
+//@        && Resp_body[w] == callres("op.CreateTokenExchangeResponse", 0)
 //@ func op.ClientCredentialsExchange
 //@   requires !Resp_written[w] && valid(r) && valid(exchanger) && valid(w)
 //@   requires supported: exchanger.GrantTypeClientCredentialsSupported()
@@ -629,3 +633,49 @@ package op
 //@        ==> result0 != nil && result0.URL == callres("op.ValidateEndSessionRequest", 0).RedirectURI && callres("op.AuthStorage.TerminateSession", 0) == nil
 //@        && callarg("op.AuthStorage.TerminateSession", 1) == callres("op.ValidateEndSessionRequest", 0).UserID
 //@        && callarg("op.AuthStorage.TerminateSession", 2) == callres("op.ValidateEndSessionRequest", 0).ClientID
+
+// ---- C15: token exchange ----
+
+// A subject / actor token is accepted only on one of these grounds (per declared type), or by the
+// storage's optional own verifier.
+//@ func op.GetTokenIDAndSubjectFromToken
+//@   requires valid(exchanger)
+//@   ensures fail-closed: !ok ==> tokenIDOrToken == "" && subject == ""
+//@   ensures id-token-live: ok && tokenType == oidc.IDTokenType && !implements(exchanger.Storage(), "TokenExchangeTokensVerifierStorage")
+//@        ==> callres("op.VerifyIDTokenHint", 1) == nil && callarg("op.VerifyIDTokenHint", 1) == token
+//@   ensures refresh-token-known: ok && tokenType == oidc.RefreshTokenType && !implements(exchanger.Storage(), "TokenExchangeTokensVerifierStorage")
+//@        ==> callres("op.AuthStorage.TokenRequestByRefreshToken", 1) == nil && callarg("op.AuthStorage.TokenRequestByRefreshToken", 1) == token
+//@   ensures other-types-refused: ok && !implements(exchanger.Storage(), "TokenExchangeTokensVerifierStorage")
+//@        ==> tokenType == oidc.AccessTokenType || tokenType == oidc.RefreshTokenType || tokenType == oidc.IDTokenType
+
+//@ func op.CreateTokenExchangeRequest
+//@   requires valid(oidcTokenExchangeRequest) && valid(client) && valid(exchanger)
+//@   ensures fail-closed: err != nil ==> result0 == nil
+//@   ensures valid: err == nil ==> valid(result0)
+//@   ensures subject-token-ok: err == nil ==> callres("op.GetTokenIDAndSubjectFromToken#1", 3)
+//@        && callarg("op.GetTokenIDAndSubjectFromToken", 2) == oidcTokenExchangeRequest.SubjectToken
+//@        && callarg("op.GetTokenIDAndSubjectFromToken", 3) == oidcTokenExchangeRequest.SubjectTokenType
+//@   ensures actor-token-ok: err == nil && oidcTokenExchangeRequest.ActorToken != "" ==> callres("op.GetTokenIDAndSubjectFromToken#2", 3)
+//@   ensures storage-validated: err == nil ==> callres("op.TokenExchangeStorage.ValidateTokenExchangeRequest", 0) == nil
+//@        && callres("op.TokenExchangeStorage.CreateTokenExchangeRequest", 0) == nil
+//@        && callarg("op.TokenExchangeStorage.ValidateTokenExchangeRequest", 1) == result0
+//@   ensures for-this-client: err == nil ==> typeis(result0, "*tokenExchangeRequest") && as(result0, "*tokenExchangeRequest").clientID == client.GetID()
+//@   ensures client-kept: client.GrantTypes() == old(client.GrantTypes()) && client.GetID() == old(client.GetID())
+
+// The response declares what it contains (from the statement): the issued_token_type is the
+// requested one, the token is the one just created for this request, and a type the provider
+// cannot issue is an error.
+//@ func op.CreateTokenExchangeResponse
+//@   requires valid(tokenExchangeRequest) && valid(client) && valid(creator)
+//@   ensures fail-closed: err != nil ==> result0 == nil
+//@   ensures declared-type: err == nil ==> result0 != nil && result0.IssuedTokenType == tokenExchangeRequest.GetRequestedTokenType()
+//@   ensures unsupported-type-is-error: tokenExchangeRequest.GetRequestedTokenType() != oidc.AccessTokenType && tokenExchangeRequest.GetRequestedTokenType() != oidc.RefreshTokenType
+//@        && tokenExchangeRequest.GetRequestedTokenType() != oidc.IDTokenType ==> err != nil
+//@   ensures access-token: err == nil && (tokenExchangeRequest.GetRequestedTokenType() == oidc.AccessTokenType || tokenExchangeRequest.GetRequestedTokenType() == oidc.RefreshTokenType)
+//@        ==> result0.AccessToken == callres("op.CreateAccessToken", 0) && result0.RefreshToken == callres("op.CreateAccessToken", 1)
+//@         && result0.TokenType == oidc.BearerToken && callarg("op.CreateAccessToken", 1) == tokenExchangeRequest
+//@   ensures refresh-has-token: err == nil && tokenExchangeRequest.GetRequestedTokenType() == oidc.RefreshTokenType && !implements(tokenExchangeRequest, "AuthRequest")
+//@        ==> result0.RefreshToken != ""
+//@   ensures id-token: err == nil && tokenExchangeRequest.GetRequestedTokenType() == oidc.IDTokenType
+//@        ==> result0.AccessToken == callres("op.CreateIDToken", 0) && result0.TokenType == "N_A" && callarg("op.CreateIDToken", 2) == tokenExchangeRequest
+//@   ensures scopes: err == nil ==> result0.Scopes == tokenExchangeRequest.GetScopes()
